@@ -20,6 +20,10 @@ static const char* const typeName[NTYPES] = {"pin", "slider", "cylinder", "bends
 inline int typeOf(const std::string& s) { for (int t = 0; t < NTYPES; ++t) if (s == typeName[t]) return t; return -1; }
 inline bool usesQuat(int t) { return t == BALL || t == FREE || t == ELLIPSOID || t == LINEORIENTATION || t == FREELINE; }
 inline bool modelled(int) { return true; }
+// types whose setUToFitVelocity / setQToFitTranslation the Lean model predicts (Spec.fitU / Spec.fitQtrans)
+inline bool hasFitU(int t) { return t == PIN || t == SLIDER || t == CYLINDER || t == SCREW || t == TRANSLATION || t == PLANAR || t == UNIVERSAL
+    || t == GIMBAL || t == BUSHING || t == BALL || t == FREE || t == LINEORIENTATION || t == FREELINE; }
+inline bool hasFitQtrans(int t) { return t == SLIDER || t == TRANSLATION || t == CYLINDER || t == PLANAR || t == BUSHING || t == FREE || t == FREELINE; }
 inline int nuOf(int t) {
     switch (t) { case PIN: case SLIDER: case SCREW: return 1;
                  case CYLINDER: case BENDSTRETCH: case UNIVERSAL: case LINEORIENTATION: return 2;
@@ -47,6 +51,15 @@ struct Case {
     std::string tag() const {
         return std::string(typeName[type]) + ".F" + std::to_string(fcIn) + "M" + std::to_string(fcOut) + (rev ? ".rev" : ".fwd")
              + (euler ? ".euler" : ".quat");
+    }
+    // option sub-class of the types that have options (counted separately in the evidence)
+    std::string optTag() const {
+        if (type == 12 /*SPHERICAL*/) return std::string("opt.spherical.az") + (par[2] < 0 ? "-" : "+") + ".ze" + (par[3] < 0 ? "-" : "+")
+            + ".r" + (par[4] < 0 ? "-" : "+") + (axisX ? ".axisX" : ".axisZ") + ((par[0] != 0 || par[1] != 0) ? ".offsets" : ".nooffsets");
+        if (type == 13 /*ELLIPSOID*/) return (par[0] == par[1] && par[1] == par[2]) ? "opt.ellipsoid.sphere" : "opt.ellipsoid.nonsphere";
+        if (type == 11 /*SCREW*/) return par[0] < 0 ? "opt.screw.pitch-" : "opt.screw.pitch+";
+        if ((type == 8 || type == 9 || type == 13 || type == 14 || type == 15) && !euler) return unitQuat ? "opt.quat.unit" : "opt.quat.unnormalised";
+        return "";
     }
 };
 
@@ -91,12 +104,12 @@ inline void randomState(vh::Rng& g, Case& c) {
                        if (t == FREE || t == FREELINE) { c.q[3] = len(); c.q[4] = len(); c.q[5] = len(); } }
         else { Vec4 e; Real n; do { for (int i = 0; i < 4; ++i) e[i] = g.range(-1, 1); n = e.norm(); } while (n < 0.2 || n > 1);
                e /= n;
-               c.unitQuat = (g.below(4) != 0);
+               { static int qCount = 0; c.unitQuat = (qCount++ % 4 != 0); (void)g.below(4); }
                if (!c.unitQuat) e *= g.range(0.5, 2);          // unnormalised: the code normalises before rotating
                for (int i = 0; i < 4; ++i) c.q[i] = e[i];
                if (t == FREE || t == FREELINE) { c.q[4] = len(); c.q[5] = len(); c.q[6] = len(); } }
     }
-    for (int i = 0; i < 6; ++i) { c.u[i] = i < c.nu() ? g.signedMag(0.1, 2) : 0; c.udot[i] = i < c.nu() ? g.signedMag(0.1, 2) : 0;
+    for (int i = 0; i < 6; ++i) { c.u[i] = i < c.nu() ? g.signedMag(0.1, 2) : 0; c.udot[i] = g.signedMag(0.1, 2);   // all six: C05 uses them as a target velocity
                                   c.vu[i] = i < c.nu() ? g.signedMag(0.1, 2) : 0; }
     for (int i = 0; i < 7; ++i) c.vq[i] = i < c.nq() ? g.signedMag(0.1, 2) : 0;
     c.station = Vec3(g.signedMag(0.1, 2), g.signedMag(0.1, 2), g.signedMag(0.1, 2));
@@ -106,14 +119,17 @@ inline Case randomCase(vh::Rng& g, int type, int fcIn, int fcOut, bool rev, bool
     Case c; c.type = type; c.rev = (type == WELD ? false : rev); c.euler = euler; c.fcIn = fcIn; c.fcOut = fcOut;
     c.X_PF = randomFrame(g, fcIn); c.X_BM = randomFrame(g, fcOut);
     if (type == SCREW) c.par[0] = g.signedMag(0.1, 2);
-    if (type == ELLIPSOID) { c.par[0] = g.range(0.3, 2); c.par[1] = g.range(0.3, 2); c.par[2] = g.range(0.3, 2);
-                             if (g.below(4) == 0) c.par[1] = c.par[2] = c.par[0]; }                       // sometimes a sphere
+    if (type == ELLIPSOID) { static int ellCount = 0; c.par[0] = g.range(0.3, 2); c.par[1] = g.range(0.3, 2); c.par[2] = g.range(0.3, 2);
+                             if (ellCount++ % 4 == 0) c.par[1] = c.par[2] = c.par[0]; }                       // sometimes a sphere
     if (type == CANTILEVER) c.par[0] = g.range(0.5, 3);
     if (type == SPHERICAL) {
-        bool dflt = g.below(4) == 0;
-        c.par[0] = dflt ? 0 : g.range(-3, 3); c.par[1] = dflt ? 0 : g.range(-3, 3);
-        c.par[2] = (!dflt && g.coin()) ? -1 : 1; c.par[3] = (!dflt && g.coin()) ? -1 : 1; c.par[4] = (!dflt && g.coin()) ? -1 : 1;
-        c.axisX = !dflt && g.coin();
+        // every sign-flag / axis combination gets a guaranteed share: cycle through the 16 combinations (+ offsets on/off)
+        static int sphCount = 0;
+        const int k = sphCount++ % 32;
+        const bool offsets = (k & 16) != 0;
+        c.par[0] = offsets ? g.range(-3, 3) : 0; c.par[1] = offsets ? g.range(-3, 3) : 0;
+        c.par[2] = (k & 1) ? -1 : 1; c.par[3] = (k & 2) ? -1 : 1; c.par[4] = (k & 4) ? -1 : 1;
+        c.axisX = (k & 8) != 0;
     }
     randomState(g, c);
     return c;
@@ -274,6 +290,7 @@ inline bool getBody(std::istringstream& is, Case& c, std::vector<double>& v, siz
     for (int i = 0; i < 7; ++i) c.q[i] = v[k++];
     for (int i = 0; i < 6; ++i) c.u[i] = v[k++];
     c.fcIn = frameClass(c.X_PF); c.fcOut = frameClass(c.X_BM);
+    if (usesQuat(c.type) && !c.euler) { double n2 = 0; for (int i = 0; i < 4; ++i) n2 += c.q[i] * c.q[i]; c.unitQuat = std::abs(n2 - 1) < 1e-12; }
     return true;
 }
 inline bool getCase(std::istringstream& is, Case& c) {
